@@ -121,7 +121,14 @@ def _analyse_into(ctx, func, cls, loop):
         seen.add(cur.id)
         if any(isinstance(x, ast.Global) and cur.id in x.names for x in walk_local(func.node)):
             break
-        defs = [st for st in func.node.body if isinstance(st, ast.Assign) and any(is_name(tg, cur.id) for tg in st.targets) and st.lineno < loop.lineno]
+        # the definition sits in the same block as the loop, in front of it (the block may be the branch of a fast path)
+        block = func.node.body
+        for holder in walk_local(func.node):
+            for fld in ('body', 'orelse', 'finalbody'):
+                lst = getattr(holder, fld, None)
+                if isinstance(lst, list) and any(x is loop for x in lst):
+                    block = lst
+        defs = [st for st in block if isinstance(st, ast.Assign) and any(is_name(tg, cur.id) for tg in st.targets) and st.lineno < loop.lineno]
         all_defs = [st for st in walk_local(func.node) if isinstance(st, ast.Assign) and any(is_name(tg, cur.id) for tg in st.targets)]
         if len(defs) != 1 or len(all_defs) != 1:
             break
@@ -168,6 +175,20 @@ def _analyse_one(ctx, func, cls=None):
     into = [l for l in _while_loops(func) if any(last_attr(c) == 'recv_into' for st in l.body for c in calls_in(st))]
     if into and not any(_is_socket_recv(c) for l in _while_loops(func) for st in l.body for c in calls_in(st)):
         return _analyse_into(ctx, func, cls, into[0])
+    if into:
+        # both idioms in one function (a fast path, possibly an inlined helper): every receive loop has to be exact
+        res0 = _analyse_recv(ctx, func, cls)
+        for lp in into:
+            sub = _analyse_into(ctx, func, cls, lp)
+            res0.problems += [f'recv_into loop at line {int(getattr(lp, "orig_lineno", lp.lineno))}: {pr}' for pr in sub.problems]
+        res0.ok = not res0.problems
+        return res0
+    return _analyse_recv(ctx, func, cls)
+
+
+def _analyse_recv(ctx, func, cls=None):
+    res = ExactRead()
+    g = ctx.an.cfg(func, cls)
     loops = [l for l in _while_loops(func) if any(_is_socket_recv(c) for st in l.body for c in calls_in(st))]
     if not loops:
         # MSG_WAITALL idiom
@@ -286,7 +307,9 @@ def _analyse_one(ctx, func, cls=None):
     if size_expr is not None and isinstance(size_expr, ast.Name):
         res.size_param = size_expr.id
     elif mode == 'counter':
-        res.size_param = counter
+        # the counter starts from the requested size: `remaining = size` in front of the loop
+        inits = [st.value for st in func.node.body if isinstance(st, ast.Assign) and any(is_name(tg, counter) for tg in st.targets) and st.lineno < loop.lineno]
+        res.size_param = inits[0].id if len(inits) == 1 and isinstance(inits[0], ast.Name) else counter
     return res
 
 
